@@ -253,7 +253,13 @@ def check_detector(repo: Repo, res: Result) -> None:
         mode = "present" if pairs and not keyp else ("absent" if keyp and not pairs else ("mixed" if keyp and pairs else "unknown"))
         head = f"{m.relpath}::{getattr(view, 'shown', m.qualname)}"
         if mode in ("unknown", "mixed"):
-            res.undecide("C05.R3" if src == "O" else "C05.R4", f"{head}::{b.field}", f"cannot tell whether the bucket reports realised pairs or missing dependencies (result shapes {sorted(map(str, sh.ret))})", where(m, m.node))
+            res.undecide("C05.R3" if src == "O" else "C05.R4", f"{head}::{b.field}", f"cannot tell whether the bucket reports realised pairs or missing dependencies (result shapes {sorted(map(str, sh.ret))})" + (f"; the result is drawn from `{norm(_foreign_call(view), 60)}`, a method of another class that is not followed" if _foreign_call(view) is not None else ""), where(m, m.node))
+            # the bucket was found and looked at (its verdict is open): the floors guard against buckets that vanish from the
+            # wiring table, not against judgements that moved out of the detector's own methods
+            if src == "O":
+                k3 += 1
+            else:
+                k4 += 2
             continue
         for ev in sh.unknown_filters:
             res.undecide("C05.R3", key_of(repo, view, ev, f" [{b.field}]"), "a test on the two ends of a dependency pair guards its addition, but it is not recognisably `layer(end 0) != layer(end 1)`", where_of(view, ev))
@@ -314,6 +320,14 @@ def check_detector(repo: Repo, res: Result) -> None:
                     res.add("C05.R4", construct, verdict, detail, wh, kind="decision-table")
     res.floor("C05.R3", 4, k3)
     res.floor("C05.R4", 5, k4)
+
+
+def _foreign_call(view: FuncInfo) -> ast.Call | None:
+    """A call on an object stored in a field of the detector (`self._helper.method(data)`) that stayed a call in the view."""
+    for n in all_nodes(view):
+        if isinstance(n, ast.Call) and isinstance(n.func, ast.Attribute) and isinstance(n.func.value, ast.Attribute) and isinstance(n.func.value.value, ast.Name) and n.func.value.value.id == "self" and n.args:
+            return n
+    return None
 
 
 def _absent_guard(view: FuncInfo, sh: Shapes, keyp: list[Production], jmap: dict, src: str):
